@@ -16,11 +16,12 @@ ID = 'C15'
 LEVEL = 'exploration'
 RULE = (
     'Finite lattice: every subset of 2..7 knots of a '
-    '7-point (thorough: 9-point) level menu x 6 conductivity patterns spanning 1e-3..1e4 '
-    '(rising, flat, falling, zig-zag, steep, one flat segment below others) '
+    '7-point (thorough: 9-point) level menu x 7 conductivity patterns spanning 1e-3..1e4 '
+    '(rising, flat, falling, zig-zag, steep, one flat segment below others) and 1e-12..1e-6 '
     'x minimum transmissivity in {1e-3, 7.442, 1e3, integer 7}; levels: far below, just below, first knot, two '
     'points inside each segment, each knot, last knot; each evaluated as a '
-    'scalar, inside a list and inside an ndarray through the real '
+    'scalar, inside a list and inside an ndarray (ascending, descending, '
+    'rotated and interleaved order) through the real '
     'SplineTransmissivity.  Oracle: closed form T_min + sum over segments '
     'of K_i (exp(s_i dz) - 1) / s_i (K_i dz when flat) to 1e-7 relative; '
     'T_min at and below the first knot; non-decreasing along the sorted '
@@ -42,6 +43,9 @@ PATTERNS = {
     'steep': lambda i, n: (1e-3, 1e-3, 1e4, 1e4, 1e-3, 1e4, 1e-3)[i],
     'flat-then-rising': lambda i, n: (0.5, 0.5, 2.0, 2.0, 40.0, 900.0,
                                       900.0)[i],
+    # conductivities far below anything physical for peat, as an optimiser
+    # may propose them: 1e-12 .. 1e-6 km/d
+    'tiny': lambda i, n: 10.0 ** (-12 + 6.0 * i / max(n - 1, 1)),
 }
 TMINS = [1e-3, 7.442, 1e3, 7]     # the last one is an int, as YAML gives it
 _SETS = {}
@@ -53,7 +57,7 @@ def decoy():
 
 
 def BOUND(tier):
-    return ('%s knot subsets x 6 conductivity patterns x 4 minimum '
+    return ('%s knot subsets x 7 conductivity patterns x 4 minimum '
             'transmissivities x 3K+1 levels x {scalar, list, ndarray}'
             % ('2..7-element subsets of a 7-level menu:' if tier == 'quick'
                else '2..7-element subsets of a 9-level menu:'))
@@ -120,6 +124,20 @@ def dump_violations(knots, K, t_min):
     return out
 
 
+def orders(n):
+    idx = list(range(n))
+    inter = []
+    lo, hi = 0, n - 1
+    while lo <= hi:
+        inter.append(lo)
+        if hi != lo:
+            inter.append(hi)
+        lo, hi = lo + 1, hi - 1
+    return [('descending', idx[::-1]),
+            ('rotated', idx[n // 3:] + idx[:n // 3]),
+            ('interleaved', inter)]
+
+
 def run_case(case):
     knots = case['knots']
     n = len(knots)
@@ -154,6 +172,19 @@ def run_case(case):
         as_list = [float(v) for v in T(list(levels))]
         arg = np.array(levels)
         as_array = [float(v) for v in T(arg)]
+        # the same levels in three other orders (descending, rotated,
+        # interleaved from both ends): position k of the result belongs to
+        # position k of the argument
+        for name, order in orders(len(levels)):
+            got_o = [float(v) for v in T(np.array([levels[k]
+                                                   for k in order]))]
+            if got_o != [scalars[k] for k in order]:
+                viol.append((
+                    'array-order-dependent',
+                    'T(levels in %s order) = %r..., the scalar values in '
+                    'that order are %r...'
+                    % (name, got_o[:4], [scalars[k] for k in order][:4])))
+                break
         if list(arg) != list(levels):
             viol.append(('caller-array-overwritten',
                          'after T(array) the caller\'s levels read %r, they '
